@@ -421,6 +421,7 @@ func runC04(c *Ctx) {
 	runC04StrictStatus(c)
 	// ---- C04.8
 	runC04NonZeroCode(c)
+	runC04Base64Tolerant(c)
 
 	// ---- C04.5
 	c.Rule("C04.5", "the percent-encoding escape set and hex helpers are exactly the gRPC spec's", 4)
@@ -855,5 +856,110 @@ func runC04NonZeroCode(c *Ctx) {
 	}
 	if n == 0 {
 		c.Bad("C04.8", "server-protocols", "error-code-non-zero", token.NoPos, "no error is built from parsed backend data: shape changed")
+	}
+}
+
+// runC04Base64Tolerant: C04.9 (defect D44).  Base64 text that arrives from a peer (error details of
+// a Connect error, the message of a Connect GET, bytes fields in query parameters) may be padded
+// or not: the Connect protocol and proto3 JSON both require receivers to accept either form.  A
+// decode with one fixed alphabet/padding variant therefore needs a second attempt with the other
+// padding on its failure edge, or an encoding selected from the input; a lone strict decode
+// silently loses the value (the error is usually swallowed: 'seems a waste to fail').
+func runC04Base64Tolerant(c *Ctx) {
+	p := c.P
+	c.Rule("C04.9", "base64 text from a peer is decoded tolerantly: padded and unpadded forms are both accepted", 2)
+	// padding variant of an encoding value: "raw" (no padding), "padded", "both" (selected from the input)
+	var variant func(v ssa.Value, depth int) string
+	variant = func(v ssa.Value, depth int) string {
+		if depth > 5 {
+			return "?"
+		}
+		switch x := v.(type) {
+		case *ssa.UnOp:
+			if g, ok := x.X.(*ssa.Global); ok && g.Pkg != nil && g.Pkg.Pkg.Path() == "encoding/base64" {
+				switch g.Name() {
+				case "RawStdEncoding", "RawURLEncoding":
+					return "raw"
+				case "StdEncoding", "URLEncoding":
+					return "padded"
+				}
+			}
+		case *ssa.Phi:
+			seen := map[string]bool{}
+			for _, e := range x.Edges {
+				seen[variant(e, depth+1)] = true
+			}
+			if seen["?"] {
+				return "?"
+			}
+			if seen["both"] || (seen["raw"] && seen["padded"]) {
+				return "both"
+			}
+			for k := range seen {
+				return k
+			}
+		case *ssa.Call:
+			if IsCallTo(x, "(encoding/base64.Encoding).WithPadding") {
+				if k, ok := ConstInt(x.Call.Args[1]); ok && k == -1 {
+					return "raw"
+				}
+				return "padded"
+			}
+		}
+		return "?"
+	}
+	type site struct {
+		call ssa.CallInstruction
+		v    string
+		in   ssa.Value
+	}
+	n := 0
+	for _, fn := range SortedFuncs(p.RequestTimeReach()) {
+		if !p.inScope(fn) {
+			continue
+		}
+		var sites []site
+		for _, call := range Calls(fn) {
+			if !IsCallTo(call, "(*encoding/base64.Encoding).DecodeString", "(*encoding/base64.Encoding).Decode", "(*encoding/base64.Encoding).AppendDecode") {
+				continue
+			}
+			args := call.Common().Args
+			sites = append(sites, site{call, variant(args[0], 0), args[len(args)-1]})
+		}
+		for i, st := range sites {
+			n++
+			c.CountSite()
+			construct := "base64-decode"
+			if i > 0 {
+				construct += "|#" + itoa(i+1)
+			}
+			if st.v == "both" {
+				c.OK("C04.9", FuncName(fn), construct, st.call.Pos(), "the encoding is chosen from the input: padded and unpadded text are both decodable")
+				continue
+			}
+			// a partner decode of the same input with the other padding, one of them on the failure edge of the other
+			ok := false
+			for j, o := range sites {
+				if i == j || o.v == st.v || o.v == "?" || st.v == "?" {
+					continue
+				}
+				if o.in != st.in && PathOf(o.in) != PathOf(st.in) {
+					continue
+				}
+				first, second := st.call, o.call
+				if !(first.Block() == second.Block() && instrBefore(first, second) || first.Block() != second.Block() && first.Block().Dominates(second.Block())) {
+					first, second = second, first
+				}
+				if first.Block().Dominates(second.Block()) {
+					ok = true
+				}
+			}
+			c.Check(ok, "C04.9", FuncName(fn), construct, st.call.Pos(),
+				"this decode has a partner decode of the same text with the other padding variant",
+				"base64 text from a peer is decoded with one fixed padding variant ("+st.v+") and nothing else is tried: the other form, which receivers must accept, fails - and the value (an error detail, a message) is lost")
+		}
+	}
+	if n == 0 {
+		c.Bad("C04.9", "package", "base64-decode", token.NoPos, "no base64 decode site found: shape changed")
 	}
 }
